@@ -24,6 +24,18 @@ theorem C20_transform_roundtrip (t vt : Mat K) (h : det vt ≠ 0) :
   rw [C04_mul_assoc, (C04_inverse vt h).2]
   exact (C04_identity_neutral t ⟨0, 0⟩).2.1
 
+/-- **Second generation.** Let `q` be what the number format does to the written matrix (`%f`: six
+    decimals), idempotent as every rounding to a fixed grid is. The matrix written for the tree that
+    was read back from the first text is the matrix in the first text: from the second generation on
+    the written transform is stable. (Exact arithmetic for the products; the float products are
+    within the bound below.) -/
+theorem C20_second_generation_transform (q : Mat K → Mat K) (hq : ∀ m, q (q m) = q m) (t vt : Mat K)
+    (h : det vt ≠ 0) :
+    q (writtenMatrix (rereadMatrix (q (writtenMatrix t (some (inverse vt)))) (some vt)) (some (inverse vt))) =
+      q (writtenMatrix t (some (inverse vt))) := by
+  simp only [rereadMatrix, writtenMatrix]
+  rw [C04_mul_assoc, (C04_inverse vt h).1, (C04_identity_neutral _ ⟨0, 0⟩).2.1, hq]
+
 /-- without a viewBox nothing is multiplied in and nothing is needed -/
 theorem C20_transform_roundtrip_no_viewbox (t : Mat K) :
     rereadMatrix (writtenMatrix t none) (none : Option (Mat K)) = t := rfl
@@ -186,6 +198,14 @@ theorem C20_paint_roundtrip (cfg : Cfg K) (tau : K) (d : Dict) (key opKey opKey2
       cases hf : pyFloat? cfg o with
       | none => simp only [hf] at this ⊢; exact this
       | some x => simp only [hf] at this ⊢; exact this
+
+/-- … hence what is written for the paint read back is what was written before -/
+theorem C20_second_generation_paint (cfg : Cfg K) (tau : K) (d : Dict) (key opKey opKey2 : String) (v : Nat)
+    (hv : v < 4294967296)
+    (htext : Dict.get d key = (writtenPaint (K := K) (some (some v))).text)
+    (hop : OpacityOK cfg (alpha v) (match Dict.get d opKey with | some o => some o | none => Dict.get d opKey2)) :
+    (writtenPaint (paintOf cfg tau d key opKey opKey2) : PaintOut K) = writtenPaint (some (some v)) := by
+  rw [C20_paint_roundtrip cfg tau d key opKey opKey2 v hv htext hop]
 
 /-- the opacity number the writer emits for a translucent colour, `alpha / 255`, restores that
     alpha (exact arithmetic; `round` fixes the integers) -/
